@@ -228,6 +228,10 @@ class C17:
         if st != "ok":
             return {"inconclusive": f"phase 1 {st}", "traceback": str(p1)[-1500:]}
         counters, viol, sigs = {}, [], set()
+        if p1["exc"] is not None and case.get("linked") and p1["new"] == old:
+            # an implementation may decline to edit through a symbolic link: nothing was lost or truncated
+            return {"violations": [], "counters": {"edit_through_link_declined": 1, "metafile_path_is_symlink_cases": 1}, "nontrivial": False,
+                    "sig": ["declined-link"], "sample": {"request": case["req"], "declined": p1["exc"]}}
         if p1["exc"] is not None:
             viol.append(oracles.V("unfaulted-edit-raised", exc=p1["exc"], request=case["req"]))
             return {"violations": viol, "counters": counters, "nontrivial": True, "sig": ["unfaulted-raise"],
